@@ -261,7 +261,7 @@ def output_sxr(image_contribution, noise_contribution, average_sources=True,
         SIR = np.mean(SIR)
         SNR = np.mean(SNR)
 
-    if return_dict is True:
+    if return_dict:
         if return_dict is True:
             return {'sdr': SDR, 'sir': SIR, 'snr': SNR}
         elif isinstance(return_dict, str):
